@@ -3,8 +3,11 @@ CONSTANTS
   MaxNA = 5
   MaxNS = 2
   MaxOrder = 3
+  Layouts = {"front", "back", "gap"}
 INVARIANT SameLength
 INVARIANT ScaleMatchesOrder
 INVARIANT ConstantOnce
 INVARIANT NoDuplicateTerms
+INVARIANT GlobalTermsWellFormed
+INVARIANT AxisKinds
 INVARIANT Emit
